@@ -143,7 +143,18 @@ func vDigitsP(tag string, n int) (string, int64) {
 // converted with the documented values: count multiplied by the sampling
 // period, delay scaled by period/GHz when cycles/second is known.
 func VerifC14ContentionSample() {
-	ds, delay := vDigitsP("delay", 1+vChoice("ndelay", 3))
+	var ds string
+	var delay int64
+	if nd := vChoice("ndelay", 6); nd < 3 {
+		ds, delay = vDigitsP("delay", 1+nd)
+	} else {
+		// large delays (cycles): fixed magnitudes around the points where a
+		// cycles-to-nanoseconds conversion in integers would overflow
+		// (symbolic 11-digit decimals times 1e9 are out of the solvers' reach)
+		big := []int64{12500000000, 9223372037, 92233720368547}
+		delay = big[nd-3]
+		ds = strconv.FormatInt(delay, 10)
+	}
 	cs, count := vDigitsP("count", 1+vChoice("ncount", 3))
 	line := ds + " " + cs + " @ 0x10 0x20"
 	period := []int64{0, 1, 100}[vChoice("period", 3)]
